@@ -113,21 +113,25 @@ Fixpoint interp_all (factor : F64) (cs ns : list pval) : option (option (list pv
       end
   end.
 
-(* the positions History.get returns; None = an exception *)
-Definition positions (h : list entry) (t : Z) : option (list pval) :=
+(* the positions History.get returns, or the exception it raises *)
+Inductive pres := POk (vs : list pval) | PIndexError | POverflow.
+Definition positions_r (h : list entry) (t : Z) : pres :=
   match h_get h t with
-  | GEmpty => None                                     (* IndexError *)
-  | GDirect e => Some (snd e)
+  | GEmpty => PIndexError                              (* self.history[0] on an empty list *)
+  | GDirect e => POk (snd e)
   | GInterp cur nxt =>
       match of_int (t - fst cur), of_int (fst nxt - fst cur) with
       | Some a, Some b =>
           match interp_all (fdiv a b) (snd cur) (snd nxt) with
-          | Some (Some vs) => Some vs
-          | _ => None
+          | Some (Some vs) => POk vs
+          | Some None => POverflow
+          | None => PIndexError                        (* nxt[i] beyond the end of nxt *)
           end
-      | _, _ => None                                   (* OverflowError *)
+      | _, _ => POverflow                              (* float(int) of a huge difference *)
       end
   end.
+Definition positions (h : list entry) (t : Z) : option (list pval) :=
+  match positions_r h t with POk vs => Some vs | _ => None end.
 
 (* ---- text ---- *)
 Definition crlf : list Z := [CR; LF].
